@@ -723,6 +723,60 @@ def body_small(case, ctx):
     op_rename(G, m, {"a": "x", "b": "a", "c": "b"}, True, ctx)
 
 
+# ---------------------------------------------------------------------------
+# builtin automata (model = regex reading of the file, independent of the GAP parser)
+def _builtin_dir():
+    import os
+    return os.path.join(os.path.dirname(fsa_mod.__file__), "builtin")
+
+
+def exhaustive_builtin(tier):
+    import os
+    d = _builtin_dir()
+    cap = 2500 if tier == "quick" else 4000
+    names = sorted(x for x in os.listdir(d) if (x.endswith(".wa") or x.endswith(".geowa"))
+                   and os.path.getsize(os.path.join(d, x)) < cap)
+    return [("builtin automata below %d bytes: queries, enumeration, multiples, recurrent, "
+             "shortest paths" % cap, [dict(name=x) for x in names])]
+
+
+def body_builtin(case, ctx):
+    import os
+    from ..oracles import kbmag_text as K
+    with open(os.path.join(_builtin_dir(), case["name"])) as f:
+        names, rows, k = K.regex_read(f.read())
+    m = K.table_model(names, rows, k)
+    classify(m, ctx)
+    ctx.label("file=" + case["name"])
+    F = fsa_mod.load_builtin(case["name"])
+    F.start_vertices = list(F.start_vertices)
+    check_views(F, m, ctx, where="load_builtin")
+    alphabet = m.labels() + [FOREIGN]
+    L = 3 if len(alphabet) <= 5 else 2
+    starts = m.verts[:4] + m.verts[-2:]
+    # long accepted words: follow the first available letter for 12 steps from the start
+    w, v = [], k
+    for _ in range(12):
+        nxt = sorted(m.out(v).items())
+        if not nxt:
+            break
+        l, v = nxt[len(w) % len(nxt)]
+        w.append(l)
+    walk_queries(F, m, words_upto(alphabet, L) + [w, w + [FOREIGN], w[:5] + [FOREIGN] + w[5:]],
+                 starts, ctx, as_string=True)
+    enumeration(F, m, [k] + starts[:2], 4, ctx, cap=1500)
+    for kk in (2, 3):
+        if len(m.labels()) ** kk <= 300:
+            R, rm = op_multiple(F, m, kk, ctx, lang_len=2)
+            walk_queries(R, rm, derived_words(rm, [])[:200], rm.verts[:3], ctx,
+                         tag=" (on the %d-multiple of a builtin)" % kk)
+    op_recurrent(F, m, False, ctx)
+    R, rm = op_rlp(F, m, k, True, ctx, default_root=True)
+    op_rlp(F, m, m.verts[-1], False, ctx)
+    op_rename(F, m, {l: l.swapcase() + "'" for l in m.labels()}, False, ctx)
+    check_views(F, m, ctx, where="builtin after all operations")
+
+
 _walk = Law("walk_queries_agree", walk_case(), body_walk, nt_basic, quick=250, thorough=2000,
             shards=(2, 8))
 _enum = Law("enumeration_exact", enum_case(), body_enum, nt_basic, quick=250, thorough=2000,
@@ -741,4 +795,8 @@ _small = Law("small_automata_all_operations", None, body_small, nt_basic,
              exhaustive=exhaustive_small)
 _small.ex_shards = {"quick": 4, "thorough": 16}
 
-LAWS = [_walk, _enum, _mult, _ren, _rec, _rlp, _der, _small]
+_builtin = Law("builtin_automata_operations", None, body_builtin, lambda l: "has-cycle" in l,
+               exhaustive=exhaustive_builtin)
+_builtin.ex_shards = {"quick": 3, "thorough": 6}
+
+LAWS = [_walk, _enum, _mult, _ren, _rec, _rlp, _der, _small, _builtin]
